@@ -423,6 +423,109 @@ End Gen.
 """
 
 
+# ----------------------------------------------------------------------------------------------- C02 / C07
+class MatExpr:
+    """numpy matrix expressions of the propagator kernels -> Mat.v terms.
+    numpy.dot(A,B) -> mmul n A B ; numpy.tensordot(R,rho) -> tapply n R rho ; X[mm,:,:] -> (X mm) ; + - between matrices -> madd msub;
+    scalar * matrix -> mscale; the scalars are whitelisted by their source text."""
+
+    def __init__(self, mats, fams, scalars):
+        self.mats, self.fams, self.scalars = dict(mats), dict(fams), dict(scalars)
+
+    def scalar(self, node):
+        key = ast.unparse(node)
+        if key in self.scalars:
+            return self.scalars[key]
+        raise Untranslatable("scalar %s" % key)
+
+    def m(self, node):
+        if isinstance(node, ast.Name):
+            if node.id in self.mats:
+                return self.mats[node.id]
+            raise Untranslatable("matrix name %s" % node.id)
+        if isinstance(node, ast.Subscript) and isinstance(node.value, ast.Name) and node.value.id in self.fams:
+            idxs = list(node.slice.elts) if isinstance(node.slice, ast.Tuple) else [node.slice]
+            if len(idxs) == 3 and isinstance(idxs[0], ast.Name) and all(ast.unparse(i) == ":" for i in idxs[1:]):
+                return "(%s %s)" % (self.fams[node.value.id], idxs[0].id)
+            raise Untranslatable("family subscript %s" % ast.unparse(node))
+        if isinstance(node, ast.Call):
+            f = ast.unparse(node.func)
+            if f == "numpy.dot" and len(node.args) == 2:
+                return "(mmul n %s %s)" % (self.m(node.args[0]), self.m(node.args[1]))
+            if f == "numpy.tensordot" and len(node.args) == 2 and isinstance(node.args[0], ast.Name):
+                return "(tapply n %s %s)" % (self.mats[node.args[0].id], self.m(node.args[1]))
+            raise Untranslatable("call %s" % f)
+        if isinstance(node, ast.BinOp):
+            if isinstance(node.op, ast.Add):
+                return "(madd %s %s)" % (self.m(node.left), self.m(node.right))
+            if isinstance(node.op, ast.Sub):
+                return "(msub %s %s)" % (self.m(node.left), self.m(node.right))
+            if isinstance(node.op, ast.Mult):
+                return "(mscale %s %s)" % (self.scalar(node.left), self.m(node.right))
+        raise Untranslatable("matrix expression %s" % ast.unparse(node)[:100])
+
+
+def propagator_kernels(repo):
+    path = repo + "/quantarhei/qm/propagators/rdmpropagator.py"
+    out = []
+    # ---- _COM(HH, ll, dt, rho1, has_NonHerm=False): H2 = HH when has_NonHerm is False; ret = (1j*dt/ll)*(dot(HH,rho1) - dot(rho1,H2))
+    fn = _src_of(path, "_COM")
+    body = [s for s in fn.body if not (isinstance(s, ast.Expr) and isinstance(s.value, ast.Constant))]
+    if [a.arg for a in fn.args.args] != ["HH", "ll", "dt", "rho1", "has_NonHerm"]:
+        raise Untranslatable("_COM signature")
+    if not (len(body) == 3 and isinstance(body[0], ast.If) and ast.unparse(body[0].test) == "has_NonHerm"
+            and ast.unparse(body[0].orelse[0]) == "H2 = HH" and len(body[0].orelse) == 1
+            and isinstance(body[1], ast.Assign) and ast.unparse(body[1].targets[0]) == "ret" and ast.unparse(body[2]) == "return ret"):
+        raise Untranslatable("_COM body shape")
+    me = MatExpr({"HH": "HH", "H2": "HH", "rho1": "rho1"}, {}, {"1j * dt / ll": "(rmul R im c)"})
+    out.append("  Definition gen_COM (n : nat) (im c : R) (HH rho1 : @mat R) : @mat R := %s.\n" % me.m(body[1].value))
+    # ---- _TTI(rhoY, RR, IR, ll, dt, rho1, L=4):  rhoY += (dt/ll)*tensordot(RR,rho1) + dt*IR/numpy.real(L)
+    fn = _src_of(path, "_TTI")
+    body = [s for s in fn.body if not (isinstance(s, ast.Expr) and isinstance(s.value, ast.Constant))]
+    if not (len(body) == 1 and isinstance(body[0], ast.AugAssign) and isinstance(body[0].op, ast.Add) and ast.unparse(body[0].target) == "rhoY"
+            and isinstance(body[0].value, ast.BinOp) and isinstance(body[0].value.op, ast.Add)
+            and ast.unparse(body[0].value.right) == "dt * IR / numpy.real(L)"):
+        raise Untranslatable("_TTI body shape")
+    me = MatExpr({"RR": "RR", "rho1": "rho1"}, {}, {"dt / ll": "c"})
+    out.append("  (* increment of rhoY without the inhomogeneous term dt*IR/L (IR = 0.0 unless the tensor has an initial term) *)\n"
+               "  Definition gen_TTI (n : nat) (c : R) (RR : @tens R) (rho1 : @mat R) : @mat R := %s.\n" % me.m(body[0].value.left))
+    # ---- _OTI(rhoY, Km, Kd, Lm, Ld, ll, dt, rho1): for mm in range(Nm): rhoY += (dt/ll)*( ... )
+    fn = _src_of(path, "_OTI")
+    body = [s for s in fn.body if not (isinstance(s, ast.Expr) and isinstance(s.value, ast.Constant))]
+    if not (len(body) == 2 and ast.unparse(body[0]) == "Nm = Km.shape[0]" and isinstance(body[1], ast.For)
+            and ast.unparse(body[1].iter) == "range(Nm)" and body[1].target.id == "mm" and len(body[1].body) == 1
+            and isinstance(body[1].body[0], ast.AugAssign) and isinstance(body[1].body[0].op, ast.Add)
+            and ast.unparse(body[1].body[0].target) == "rhoY"):
+        raise Untranslatable("_OTI body shape")
+    me = MatExpr({"rho1": "rho1"}, {"Km": "Km", "Kd": "Kd", "Lm": "Lm", "Ld": "Ld"}, {"dt / ll": "c"})
+    out.append("  Definition gen_OTI_m (n : nat) (c : R) (Km Kd Lm Ld : nat -> @mat R) (rho1 : @mat R) (mm : nat) : @mat R := %s.\n"
+               % me.m(body[1].body[0].value))
+    return "".join(out)
+
+
+C02_FILE = """(* GENERATED on every run by harness/translate.py from rdmpropagator.py:_COM, _TTI, _OTI *)
+From Coq Require Import ZArith List Bool Arith.
+From QV Require Import Base.Alg Base.Sums Base.Mat Base.Tens Model.C01 Model.C02.
+Section Gen.
+  Context {R : StarRing}.
+  Add Ring Rr : (rth R).
+%s
+  (* the propagation loops use  rhoY = -_COM(...)  and then add the relaxation part *)
+  Lemma gen_COM_is_model n (im c : R) (H rho : @mat R) a b :
+    ropp R (gen_COM n im c H rho a b) = mscale c (G_ham im n H rho) a b.
+  Proof. unfold gen_COM, G_ham, comm, mscale, msub. ring. Qed.
+  Lemma gen_TTI_is_model n (c : R) (Rt : @tens R) (rho : @mat R) a b : gen_TTI n c Rt rho a b = mscale c (tapply n Rt rho) a b.
+  Proof. reflexivity. Qed.
+  (* with Kd[m] = transpose(Km[m]) as the callers build it, the sum of the increments is c times the operator form *)
+  Lemma gen_OTI_is_model n Nb (c : R) (Km Lm Ld : nat -> @mat R) (rho : @mat R) a b :
+    sum Nb (fun mm => gen_OTI_m n c Km (fun m => mT (Km m)) Lm Ld rho mm a b) = rmul R c (apply_ops n Nb Km Lm Ld rho a b).
+  Proof.
+    unfold apply_ops. rewrite <- sum_mul_l. apply sum_ext. intros mm _. unfold gen_OTI_m, mscale, madd, msub. ring.
+  Qed.
+End Gen.
+"""
+
+
 def static_tie(cm, chk, pid, repo):
     """generates the file for property `pid`, compiles it, records the verdict in the evidence and as a violation if broken"""
     import os
@@ -438,6 +541,9 @@ def static_tie(cm, chk, pid, repo):
             text = C01_FILE % (loopit(repo), td_convert(repo), secular_condition(repo))
             info["translated"] = ["redfieldtensor.py:_loopit", "tdredfieldtensor.py:TDRedfieldRelaxationTensor._convert_operators_2_tensor",
                                   "relaxationtensor.py:RelaxationTensor.secularize (zeroing condition)"]
+        elif pid in ("C02", "C07"):
+            text = C02_FILE % propagator_kernels(repo)
+            info["translated"] = ["rdmpropagator.py:_COM", "rdmpropagator.py:_TTI", "rdmpropagator.py:_OTI"]
         else:
             return None
     except Untranslatable as e:
